@@ -14,6 +14,8 @@ pub fn generate(profile: &str, seed: u64, cases: usize, out: &mut dyn Write) -> 
         "hpackdec" => gen_dec(&mut rng, cases, out, false),
         "hpackdec-allsplits" => gen_dec(&mut rng, cases, out, true),
         "hpackenc" => gen_enc(&mut rng, cases, out),
+        "codecread" => crate::codec::gen_read(&mut rng, cases, out),
+        "codecwrite" => crate::codec::gen_write(&mut rng, cases, out),
         _ => return false,
     }
     true
@@ -162,7 +164,7 @@ const STATIC_NAMES: &[&str] = &[
     "www-authenticate",
 ];
 
-struct Shadow {
+pub struct Shadow {
     entries: Vec<(Vec<u8>, Vec<u8>)>, // newest first
     size: usize,
     max: usize,      // current table max
@@ -171,7 +173,7 @@ struct Shadow {
 }
 
 impl Shadow {
-    fn new(max: usize) -> Shadow {
+    pub fn new(max: usize) -> Shadow {
         Shadow { entries: vec![], size: 0, max, limit: max, pending: None }
     }
     fn insert(&mut self, n: &[u8], v: &[u8]) {
@@ -273,7 +275,7 @@ fn emit_field(rng: &mut Rng, sh: &mut Shadow, name: &[u8], value: &[u8], dst: &m
     }
 }
 
-fn gen_block(rng: &mut Rng, sh: &mut Shadow) -> Vec<u8> {
+pub fn gen_block(rng: &mut Rng, sh: &mut Shadow) -> Vec<u8> {
     let mut b = vec![];
     // size updates at the start of the block (legal place)
     if let Some(p) = sh.pending.take() {
@@ -315,8 +317,36 @@ fn gen_block(rng: &mut Rng, sh: &mut Shadow) -> Vec<u8> {
     b
 }
 
+/// a block shaped like an HTTP/2 message head: distinct pseudo fields first, then regular fields
+/// (with a small chance of breaking exactly one of those rules)
+pub fn gen_block_h2(rng: &mut Rng, sh: &mut Shadow) -> Vec<u8> {
+    let mut b = vec![];
+    let req = rng.chance(1, 2);
+    let mut names: Vec<&str> = if req { vec![":method", ":scheme", ":authority", ":path"] } else { vec![":status"] };
+    if rng.chance(1, 6) {
+        names.remove(rng.below(names.len() as u64) as usize);
+    }
+    if rng.chance(1, 12) {
+        names.push(*rng.pick(&[":method", ":status", ":path", ":protocol"]));
+    }
+    let nreg = rng.below(6);
+    for _ in 0..nreg {
+        names.push(*rng.pick(&NAMES[6..]));
+    }
+    if rng.chance(1, 15) && names.len() > 1 {
+        let i = rng.below(names.len() as u64) as usize;
+        let j = rng.below(names.len() as u64) as usize;
+        names.swap(i, j);
+    }
+    for name in names {
+        let value = if name == "te" && rng.chance(2, 3) { b"trailers".to_vec() } else { value_for(rng, name) };
+        emit_field(rng, sh, name.as_bytes(), &value, &mut b);
+    }
+    b
+}
+
 /// a block that is (very probably) invalid in one specific way
-fn gen_bad_block(rng: &mut Rng, sh: &mut Shadow) -> Vec<u8> {
+pub fn gen_bad_block(rng: &mut Rng, sh: &mut Shadow) -> Vec<u8> {
     let mut b = gen_block(rng, sh);
     match rng.below(14) {
         0 => b.extend_from_slice(&hk::encode_int(62 + sh.entries.len() + rng.below(3) as usize, 7, 0x80)), // bad index
